@@ -280,7 +280,7 @@ RULES['C08'] = 'cases 0..k: breadth-first exploration of ALL operation sequences
 ASSUME['C08'] = ['"fits contiguously" is judged with a reserve of 12 bytes beyond the 4-byte length prefix (the figure in the property quantifier); the wrap marker is modelled as a queue item that makes the bytes up to the end of the buffer unusable until consumed',
                  'exhaustive only for the small capacities listed in coverage; a capacity whose state space exceeds the state limit is reported as truncated, not complete']
 
-CHECKS['C16'] = [simple_run('h_def', 'def', 300 + 60 + 16, 300 + 60 + 170, ['C16'], extra=['--cpu', '120'])]
+CHECKS['C16'] = [simple_run('h_def', 'def', 300 + 60 + 16, 300 + 60 + 170, ['C16'], extra=['--cpu', '400'])]   # a thorough case of huge sizes needs ~130 CPU-seconds since every integer tuple is normalised twice (fixed-point twin)
 LEVELS['C16'] = 'exploration'
 RULES['C16'] = 'cases 0-299: complete grid {0,1,9,10,11,16,17,31,32,33,63,64,65,100,127,128,129,255,256,257}^4 x 15 types through jls_core_signal_def_validate/_align (relations, minimums, idempotence, zero = per-width default), one (type, samples_per_data) slice per case; cases 300-359: 12k (thorough 200k) sampled tuples each from 4 classes (<=70000, boundary 2^k+-1 / UINT32_MAX-k, mixed, uniform 32-bit); remaining cases: definition -> file -> jls_rd_signal -> second file, parameters identical. A normalisation above 1 CPU-second is a violation. distinct = exploration unit. Every tuple of an integer type is also normalised with a fixed-point exponent q in {1..255}: accepted/rejected alike and stored with the same six parameters as with q = 0'
 ASSUME['C16'] = ['the 4x32-bit domain is sampled and boundary-biased, not covered: the symbolic query named in the property quantifier is outside this technique family',
